@@ -166,8 +166,10 @@ func execTmpl(s *scenario) string {
 	case "stub":
 		st := &stubSource{have: map[chainhash.Hash]struct{}{}}
 		for i, tx := range bp.txs {
-			st.descs = append(st.descs, &mining.TxDesc{Tx: tx, Added: time.Unix(s.now, 0), Height: best.Height,
-				Fee: s.txs[i].fee, FeePerKB: s.txs[i].fpk})
+			// admission height and time differ from descriptor to descriptor (the generator must
+			// not read anything off them)
+			st.descs = append(st.descs, &mining.TxDesc{Tx: tx, Added: time.Unix(s.now-int64(i*37%500), 0),
+				Height: best.Height - int32(i*3%7), Fee: s.txs[i].fee, FeePerKB: s.txs[i].fpk})
 			st.have[*tx.Hash()] = struct{}{}
 		}
 		src = st
